@@ -148,6 +148,33 @@ func oracleC02(c *oracleCtx) {
 	if c.tier == "replay" {
 		return
 	}
+	// ---- long and deep programs: what was parsed before, and how much, does not matter ----
+	units := []string{"if (a) { b() }\n", "while (c) { d-- }\n", "{ e = 1 }\n", "for (;;) { f() }\n", "function g() { return 1 }\n", "x = [1, 2]\n",
+		"if (a) b(); else { c() }\n", "y = {k: (1 + 2) * 3}\n", "z = function() { { } }\n"}
+	sizes := []int{300, 900}
+	if c.thorough() {
+		sizes = append(sizes, 3000, 8000)
+	}
+	for _, n := range sizes {
+		var sb strings.Builder
+		for i := 0; i < n; i++ {
+			sb.WriteString(units[c.r.Intn(len(units))])
+		}
+		c02CheckText(c, sb.String(), "", "long")
+		c.count(fmt.Sprintf("long-%d", n))
+		for _, u := range units[:4] { // one kind of statement repeated
+			c02CheckText(c, strings.Repeat(u, n), "", "long")
+		}
+	}
+	for _, d := range []int{60, 150} {
+		c02CheckText(c, "x = "+strings.Repeat("(", d)+"a"+strings.Repeat(")", d)+"\n", "", "deep")
+		c02CheckText(c, "x = "+strings.Repeat("[", d)+"a"+strings.Repeat("]", d)+"\n", "", "deep")
+		c02CheckText(c, strings.Repeat("{ ", d)+"a"+strings.Repeat(" }", d)+"\n", "", "deep")
+		c02CheckText(c, strings.Repeat("if (a) { ", d)+"b"+strings.Repeat(" }", d)+"\n", "", "deep")
+		c02CheckText(c, "x = "+strings.Repeat("f(", d)+"a"+strings.Repeat(")", d)+"\n", "", "deep")
+		c02CheckText(c, "x = "+strings.Repeat("!-", d)+"a\n", "", "deep")
+		c.count(fmt.Sprintf("deep-%d", d))
+	}
 	// ---- witnesses of the known classes ----
 	c02Witnesses(c)
 }
